@@ -15,22 +15,7 @@ DEVIATIONS = {
 }
 
 # name -> what fails (same wording as the proposal files /verif/proposals/<ID>/<name>.md)
-PROPOSED_KNOWN = {
-    "IntTruncIn": ("C04", "an Int argument or variable outside 32 bits is wrapped instead of rejected: f(x: 4294967297) hands the resolver int32(1)"),
-    "FloatOverflowIn": ("C04", "a Float/Float64 argument that is not finite in the type's precision is handed over: f(x: 1e39) with x: Float gives +Inf; NaN and Inf variables pass"),
-    "SymbolAnyType": ("C04", "an enum-like literal is handed to the resolver as ggql.Symbol for arguments of any non-enum type (String, Int, lists, input objects) and for list-of-enum types"),
-    "NonNullListNoElemCoerce": ("C04", "the elements of a literal list for a [T]! argument are neither coerced nor null-checked"),
-    "ContainerLiteralUnchecked": ("C04", "a list literal for a non-list argument and an object literal for a non-input (or list-wrapped) argument reach the resolver unchecked"),
-    "DefaultNotCoerced": ("C04", "an input object field default is filled in as parsed: an Int field defaulted to 42 arrives as int64 instead of int32"),
-    "Int64KeepsInt32": ("C04", "an int32 variable value for an Int64 argument is handed over as int32"),
-    "RelaxedEnumUnchecked": ("C04", "with ggql.Relaxed a string that is no member of the enum becomes a Symbol and reaches the resolver"),
-    "IntTruncOut": ("C05", "an Int/Int64 result that does not fit is wrapped instead of null plus error: 1<<33 for an Int field gives 0, uint64(1<<63) for Int64 gives -9223372036854775808"),
-    "FloatTruncOut": ("C05", "a float with a fraction returned for an Int/Int64 field is truncated instead of null plus error: 1.5 gives 1"),
-    "NonFiniteOut": ("C05", "a Float/Float64 result that is not finite is written as +Inf/NaN (not even JSON): 1e300 for Float"),
-    "ParseFailLeak": ("C05", "a string that cannot be parsed for Int/Int64/Float/Float64/Boolean/Time stays in data (\"notanint\" for an Int field) next to the error"),
-    "TypedSliceNoCoerce": ("C05", "the elements of []string/[]int/[]int64/[]bool/[]float32/[]float64/[]time.Time results are not coerced: []int for [String] gives [1,2]"),
-    "EnumUndeclaredOut": ("C05", "a string or Symbol that is not a declared value of the enum passes: \"BOGUS\" for an enum field"),
-}
+PROPOSED_KNOWN = {}   # everything found so far is either repaired in /repo or listed in known_findings.json
 
 IN_FAMS_QUICK = ["lit0", "var0", "def0", "over", "list1", "list1var", "list1def", "list2", "varin", "objlist", "relaxed"]
 IN_FAMS_THOROUGH = IN_FAMS_QUICK + ["list2var"]
